@@ -214,7 +214,8 @@ def check_clone_shape(ctx, tu, maxlen=4, rule='C10.S'):
                 if [(x.previous, x.next, x.counter) for x in nodes] != before or S.sequence(src) != nodes:
                     fails.setdefault('the source list is untouched', 'length %d' % n)
         except S.Unsupported as e:
-            raise AnalysisBroken('C10.S: cloneFrom uses a construct outside the pointer-program fragment: %s' % e)
+            ctx.broken_later('%s: cloneFrom uses a construct outside the pointer-program fragment: %s' % (rule, e))
+            continue
         except S.NullDeref as e:
             fails['no null dereference'] = str(e)
         for law in ('the copy is a well-formed list of the same length', 'the copy shares no node with the source',
